@@ -384,6 +384,16 @@ func run(r *hk.Run) {
 		}
 		return o.Octet, false
 	}
+	// corpus: witnesses of F14 (fixed by 95fc7fd): negative zone smaller than the adjustment
+	for _, w := range []struct {
+		s string
+		q int
+	}{{"-00:30+1", 2}, {"-00:15+2", 7}, {"-01:45+2", 1}, {"-01:00+1", 0}, {"-01:00+2", 4}} {
+		o, p := emitTz("corpus", w.s)
+		if got, ok := decTZ(o); p || !ok || got != w.q {
+			r.Fail(hk.Failure{Site: tzSite, Class: "wrong-encoding", Input: w.s, Detail: fmt.Sprintf("octet %#02x decodes to %d quarter hours (valid=%v, panic=%v), want %d", o, got, ok, p, w.q)})
+		}
+	}
 	outOfRange := 0
 	for q := -79; q <= 79; q++ {
 		for dst := 0; dst <= 2; dst++ {
@@ -573,8 +583,7 @@ func run(r *hk.Run) {
 	}
 
 	// ================= network names
-	unlisted := 0
-	nameCase := func(stream string, full bool, name []byte, verdict bool, list bool) {
+	nameCase := func(stream string, full bool, name []byte, verdict bool) {
 		var ln uint8
 		var buf []byte
 		site := "nasConvert.FullNetworkNameToNas"
@@ -626,23 +635,22 @@ func run(r *hk.Run) {
 			}
 		}
 		if bad != "" {
-			// hk.Run keeps at most 200 failures: of the names of 8 and more characters only
-			// the listed variants are reported, so that other failures are never crowded out
-			if len(name) < 8 || list {
-				r.Fail(hk.Failure{Site: site, Class: "wrong-encoding", Input: string(name), Detail: bad})
-			} else {
-				unlisted++
-			}
+			r.Fail(hk.Failure{Site: site, Class: "wrong-encoding", Input: string(name), Detail: bad})
 		}
 	}
 	alpha := []byte("ABCDEFGHIJKLMNOPQRSTUVWXYZabcdefghijklmnopqrstuvwxyz0123456789 -.")
-	for i := 0; i < r.N(60, 1500); i++ { // short names (the lengths the code gets right), random septets
+	// corpus: witnesses of F13 (fixed by 12a658d)
+	for _, w := range []string{"ABCDEFGH", "ABCDEFGHIJ", "ABCDEFG", "free5GC Mobile Network"} {
+		nameCase("corpus", true, []byte(w), true)
+		nameCase("corpus", false, []byte(w), true)
+	}
+	for i := 0; i < r.N(60, 1500); i++ { // short names, random septets
 		n := r.Rng.Intn(8)
 		nm := r.Rng.Bytes(n)
 		for j := range nm {
 			nm[j] &= 0x7f
 		}
-		nameCase("name_short_random", r.Rng.Bool(), nm, true, true)
+		nameCase("name_short_random", r.Rng.Bool(), nm, true)
 	}
 	for n := 0; n <= 64; n++ {
 		for _, full := range []bool{true, false} {
@@ -650,11 +658,11 @@ func run(r *hk.Run) {
 			for i := range nm {
 				nm[i] = alpha[(i+n)%len(alpha)]
 			}
-			nameCase("name_every_length", full, nm, true, true)
+			nameCase("name_every_length", full, nm, true)
 			// boundary septets: all ones, all zeros, alternating, random 7-bit
-			nameCase("name_boundary_chars", full, bytes.Repeat([]byte{0x7f}, n), true, n == 8 || n == 10 || n == 64)
+			nameCase("name_boundary_chars", full, bytes.Repeat([]byte{0x7f}, n), true)
 			if n > 0 && (n <= 9 || n%8 <= 1 || r.Thorough()) {
-				nameCase("name_boundary_chars", full, bytes.Repeat([]byte{0x00}, n), true, false)
+				nameCase("name_boundary_chars", full, bytes.Repeat([]byte{0x00}, n), true)
 				alt := make([]byte, n)
 				rnd := make([]byte, n)
 				for i := range alt {
@@ -664,17 +672,27 @@ func run(r *hk.Run) {
 						rnd[i] = ' '
 					}
 				}
-				nameCase("name_boundary_chars", full, alt, true, false)
-				nameCase("name_random_chars", full, rnd, true, false)
+				nameCase("name_boundary_chars", full, alt, true)
+				nameCase("name_random_chars", full, rnd, true)
 			}
 		}
 	}
 	// outside the property's range (correspondence only): octets >= 0x80, very long names (Len wraps at 255)
-	r.Extra["name_failures_of_8_or_more_characters_not_listed"] = unlisted
-	nameCase("name_out_of_range", true, []byte{0x80}, false, false)
-	nameCase("name_out_of_range", false, []byte{0xff, 0xff, 0xff}, false, false)
-	nameCase("name_out_of_range", true, []byte{0x41, 0xc3, 0xa9, 0x42}, false, false)
-	for _, n := range []int{100, 254, 255, 256, 257} {
-		nameCase("name_out_of_range", n%2 == 0, bytes.Repeat([]byte{'x'}, n), false, false)
+	// long names: the element holds 254 text octets = 290 septets; beyond that the length
+	// octet wraps (291: panic on the empty Buffer, 292...: text cut) -- correspondence only
+	for _, n := range []int{100, 254, 255, 256, 257, 289, 290} {
+		nm := make([]byte, n)
+		for i := range nm {
+			nm[i] = alpha[(i*7+n)%len(alpha)]
+		}
+		nameCase("name_long", n%2 == 0, nm, true)
+		nameCase("name_long", n%2 == 1, bytes.Repeat([]byte{0x7f}, n), true)
 	}
+	for _, n := range []int{291, 292, 300, 600} {
+		nameCase("name_out_of_range", n%2 == 0, bytes.Repeat([]byte{'x'}, n), false)
+	}
+	// octets >= 0x80 are no septets (the code masks them with 0x7f): correspondence only
+	nameCase("name_out_of_range", true, []byte{0x80}, false)
+	nameCase("name_out_of_range", false, []byte{0xff, 0xff, 0xff}, false)
+	nameCase("name_out_of_range", true, []byte{0x41, 0xc3, 0xa9, 0x42}, false)
 }
